@@ -99,6 +99,10 @@ def menu(world, build):
         ("del", 0, st, "14M2D16M", ref(st, 14) + ref(st + 16, 16)),
         ("eqx", 0, st, "10=1X19=", with_sub(st, 30, [(st + 10, COMP[G[st + 10]])])),
     ]
+    wide = g.get_wide_region()
+    span = wide.end - wide.start + 60
+    # one alignment that covers the whole locus and overhangs it on both sides (long read)
+    M.append(("spanning", 0, wide.start - 30, f"{span}M", ref(wide.start - 30, span)))
     return M
 
 
